@@ -434,7 +434,7 @@ def rule_c05_r5(model: Model) -> RuleResult:
 
 
 def rule_c05_r6(model: Model) -> RuleResult:
-    r = RuleResult('C05-R6', 'fields and field converters (parallel sequences) are always paired position by position', floor=4)
+    r = RuleResult('C05-R6', 'fields and field converters (parallel sequences) are always paired position by position', floor=2)
     cls = model.cls('pane.classes.PaneConverter')
     for f in cls.methods.values():
         cfg = cfg_of(model, f)
